@@ -17,7 +17,7 @@ class H:
 
     def __init__(self, crate, name, what, unwind=None, unwindset=None, flags=None, timeout=900, mem_gb=14,
                  covers=None, tier="quick", functions=None, bounds=None, stubs=None, expect="pass",
-                 playback=True, solver=None):
+                 playback=True, solver=None, loops=None):
         self.crate = crate
         self.name = name  # full path, e.g. c05::direct
         self.what = what
@@ -34,6 +34,9 @@ class H:
         self.expect = expect  # "pass" or "fail" (reachability twin: must come back violated)
         self.playback = playback  # counterexamples replay natively without stubs being semantically needed
         self.solver = solver
+        # per-loop unwind bounds by pattern: [(regex over "<loop id> <demangled function>", bound)], first match wins;
+        # resolved against `cbmc --show-loops` of the harness's goto binary on every run
+        self.loops = loops or []
 
 
 FAST = ["-Z", "unstable-options", "--no-memory-safety-checks", "--no-assertion-reach-checks"]
@@ -123,15 +126,47 @@ def kani_cmd(h, target_dir, extra=None):
     cmd = ["cargo", "kani", "--target-dir", target_dir, "--harness", h.name, "--exact",
            "-Z", "stubbing", "-Z", "async-lib"]
     cmd += h.flags
-    if h.unwind is not None:
+    if h.unwind is not None and not h.unwindset:
         cmd += ["--default-unwind", str(h.unwind)]
     if h.solver:
         cmd += ["--solver", h.solver]
     if extra:
         cmd += extra
     if h.unwindset:
-        cmd += ["--cbmc-args", "--unwindset", ",".join(h.unwindset)]
+        # kani rejects --default-unwind together with --cbmc-args --unwindset: give both to cbmc
+        # (kani then no longer adds --unwinding-assertions itself, so it is passed explicitly)
+        cmd += ["--cbmc-args", "--unwinding-assertions"]
+        if h.unwind is not None:
+            cmd += ["--unwind", str(h.unwind)]
+        cmd += ["--unwindset", ",".join(h.unwindset)]
     return cmd
+
+
+def resolve_loops(h, target_dir, crate_dir):
+    """Map h.loops patterns to CBMC loop ids of this build: compile, let cbmc list the loops."""
+    import copy
+    h0 = copy.copy(h)
+    h0.unwindset = []
+    h0.unwind = None
+    cmd = kani_cmd(h0, target_dir) + ["--cbmc-args", "--show-loops"]
+    tag = "%s_%s" % (h.crate, h.name.replace("::", "_"))
+    rc, out = sh(cmd, cwd=crate_dir, timeout=1800, log=os.path.join(LOGS, "loops_%s.log" % tag))
+    m = re.search(r"Reading GOTO program from file (\S+)", out)
+    if not m:
+        return None, "could not locate goto binary for loop listing (rc=%s): %s" % (rc, out[-300:])
+    rc, lo = sh(["cbmc", "--show-loops", m.group(1)], timeout=300, log=os.path.join(LOGS, "loops2_%s.log" % tag))
+    found = re.findall(r"^Loop (\S+):\n\s+file (.*?) line (\d+)(?: column \d+)? function (.*)$", lo, re.M)
+    us = []
+    used = set()
+    for lid, file, line, func in found:
+        key = "%s %s" % (lid, func)
+        for i, (pat, bound) in enumerate(h.loops):
+            if re.search(pat, key):
+                us.append("%s:%d" % (lid, bound))
+                used.add(i)
+                break
+    unused = [h.loops[i][0] for i in range(len(h.loops)) if i not in used]
+    return us, ("loop patterns matching no loop: %s" % unused) if unused else ""
 
 
 def run_one(h):
@@ -140,6 +175,17 @@ def run_one(h):
     ensure_lock(crate_dir)
     t0 = time.time()
     with SlotLock("kslot") as slot:
+        if h.loops:
+            us, note = resolve_loops(h, slot.target_dir, crate_dir)
+            if us is None:
+                r.reason = note
+                r.wall = time.time() - t0
+                return r
+            import copy
+            h = copy.copy(h)
+            h.unwindset = list(h.unwindset) + us
+            r.h = h
+            r.loop_note = note
         cmd = kani_cmd(h, slot.target_dir)
         log = os.path.join(LOGS, "kani_%s_%s.log" % (h.crate, h.name.replace("::", "_")))
         r.log = log
